@@ -7,11 +7,8 @@ package main
 import (
 	"fmt"
 	"go/ast"
-	"go/constant"
 	"go/token"
 	"go/types"
-
-	"golang.org/x/tools/go/types/typeutil"
 )
 
 type Tri int
@@ -324,488 +321,3 @@ func (m *Machine) initialState() string {
 	return name
 }
 
-// ---- condition evaluation
-
-func (m *Machine) runeConst(e ast.Expr) (rune, bool) {
-	tv, ok := m.c.Info.Types[e]
-	if !ok || tv.Value == nil || tv.Value.Kind() != constant.Int {
-		return 0, false
-	}
-	v, _ := constant.Int64Val(tv.Value)
-	return rune(v), true
-}
-
-func (m *Machine) eval(e ast.Expr, env *Env) Tri {
-	e = ast.Unparen(e)
-	switch x := e.(type) {
-	case *ast.UnaryExpr:
-		if x.Op == token.NOT {
-			return triNot(m.eval(x.X, env))
-		}
-	case *ast.Ident:
-		if o := m.obj(x); o == m.inValV {
-			return env.InVal
-		}
-	case *ast.BinaryExpr:
-		switch x.Op {
-		case token.LAND:
-			return triAnd(m.eval(x.X, env), m.eval(x.Y, env))
-		case token.LOR:
-			return triOr(m.eval(x.X, env), m.eval(x.Y, env))
-		case token.EQL, token.NEQ:
-			r := m.evalEq(x.X, x.Y, env)
-			if x.Op == token.NEQ {
-				return triNot(r)
-			}
-			return r
-		case token.GTR:
-			// builder.Len() > 0
-			if c, ok := ast.Unparen(x.X).(*ast.CallExpr); ok {
-				if sel, ok := c.Fun.(*ast.SelectorExpr); ok && sel.Sel.Name == "Len" {
-					if b, ok := m.builders[m.obj(sel.X)]; ok {
-						if v, ok := m.runeConst(x.Y); ok && v == 0 {
-							return env.BufLen[b]
-						}
-					}
-				}
-			}
-		}
-	case *ast.CallExpr:
-		if fn := typeutil.StaticCallee(m.c.Info, x); fn != nil && fn.FullName() == "unicode.IsSpace" && m.obj(x.Args[0]) == m.charV {
-			return env.Class.Space
-		}
-	}
-	m.undec(e.Pos(), "condition not understood: %s", types.ExprString(e))
-	return U
-}
-
-func (m *Machine) evalEq(a, b ast.Expr, env *Env) Tri {
-	oa := m.obj(a)
-	if oa == m.charV {
-		if r, ok := m.runeConst(b); ok {
-			c := env.Class
-			if c.Runes != nil {
-				in := false
-				for _, x := range c.Runes {
-					if x == r {
-						in = true
-					}
-				}
-				if !in {
-					return F
-				}
-				if len(c.Runes) == 1 {
-					return T
-				}
-				return U
-			}
-			// open class: contains none of the special singletons
-			for _, k := range classes {
-				for _, x := range k.Runes {
-					if x == r {
-						return F
-					}
-				}
-			}
-			return U
-		}
-	}
-	if oa == m.sizeV {
-		if r, ok := m.runeConst(b); ok {
-			in := false
-			for _, s := range env.Class.Size {
-				if s == int(r) {
-					in = true
-				}
-			}
-			if !in {
-				return F
-			}
-			if len(env.Class.Size) == 1 {
-				return T
-			}
-			return U
-		}
-	}
-	// state == <state constant>
-	if oa == m.stateV && oa != nil {
-		if k, ok := m.obj(b).(*types.Const); ok && isStateType(m.c, k.Type()) {
-			if k.Name() == env.State {
-				return T
-			}
-			return F
-		}
-	}
-	// err != nil
-	if id, ok := ast.Unparen(b).(*ast.Ident); ok && id.Name == "nil" {
-		if oa != nil {
-			if t, ok := env.ErrNil[oa]; ok {
-				return t // T means err == nil
-			}
-		}
-	}
-	m.undec(a.Pos(), "equality not understood: %s == %s", types.ExprString(a), types.ExprString(b))
-	return U
-}
-
-// ---- statement execution (CPS over forks)
-
-type cont func(env *Env) []Exit
-
-func (m *Machine) execList(stmts []ast.Stmt, env *Env, k cont) []Exit {
-	if len(stmts) == 0 {
-		return k(env)
-	}
-	return m.exec(stmts[0], env, func(e *Env) []Exit { return m.execList(stmts[1:], e, k) })
-}
-
-func (m *Machine) exec(s ast.Stmt, env *Env, k cont) []Exit {
-	info := m.c.Info
-	switch x := s.(type) {
-	case *ast.BlockStmt:
-		return m.execList(x.List, env, k)
-	case *ast.IfStmt:
-		if x.Init != nil {
-			return m.exec(x.Init, env, func(e *Env) []Exit {
-				y := *x
-				y.Init = nil
-				return m.exec(&y, e, k)
-			})
-		}
-		c := m.eval(x.Cond, env)
-		var out []Exit
-		if c != F {
-			e := env
-			if c == U {
-				e = env.clone()
-				m.refine(x.Cond, e, true)
-			}
-			out = append(out, m.exec(x.Body, e, k)...)
-		}
-		if c != T {
-			e := env
-			if c == U {
-				e = env.clone()
-				m.refine(x.Cond, e, false)
-			}
-			if x.Else != nil {
-				out = append(out, m.exec(x.Else, e, k)...)
-			} else {
-				out = append(out, k(e)...)
-			}
-		}
-		return out
-	case *ast.SwitchStmt:
-		if m.obj(x.Tag) == m.stateV {
-			for _, cc := range x.Body.List {
-				cl := cc.(*ast.CaseClause)
-				for _, ce := range cl.List {
-					if o := m.obj(ce); o != nil && o.Name() == env.State {
-						return m.execList(cl.Body, env, k)
-					}
-				}
-			}
-			// no case: falls out of the switch
-			return k(env)
-		}
-	case *ast.BranchStmt:
-		if x.Tok == token.CONTINUE && x.Label == nil {
-			return []Exit{{Kind: "CONTINUE", Env: env, Pos: x.Pos()}}
-		}
-	case *ast.ReturnStmt:
-		return []Exit{m.classifyReturn(x, env)}
-	case *ast.IncDecStmt:
-		if st, ok := ast.Unparen(x.X).(*ast.StarExpr); ok && m.obj(st.X) == m.lineV && x.Tok == token.INC {
-			env.Acts = append(env.Acts, Action{Op: "LINE", Pos: x.Pos()})
-			return k(env)
-		}
-	case *ast.ExprStmt:
-		if c, ok := x.X.(*ast.CallExpr); ok {
-			if m.execCall(c, env) {
-				return k(env)
-			}
-		}
-	case *ast.AssignStmt:
-		if m.execAssign(x, env) {
-			return k(env)
-		}
-	}
-	m.undec(s.Pos(), "statement not understood: %T", s)
-	_ = info
-	return k(env)
-}
-
-func (m *Machine) refine(cond ast.Expr, env *Env, truth bool) {
-	// only err != nil / err == nil refinements matter
-	if b, ok := ast.Unparen(cond).(*ast.BinaryExpr); ok && (b.Op == token.NEQ || b.Op == token.EQL) {
-		if id, ok := ast.Unparen(b.Y).(*ast.Ident); ok && id.Name == "nil" {
-			if o := m.obj(b.X); o != nil {
-				isNil := truth == (b.Op == token.EQL)
-				if isNil {
-					env.ErrNil[o] = T
-				} else {
-					env.ErrNil[o] = F
-				}
-			}
-		}
-	}
-}
-
-func (m *Machine) classifyReturn(r *ast.ReturnStmt, env *Env) Exit {
-	if len(r.Results) != 3 {
-		return Exit{Kind: "BADRET", Env: env, Pos: r.Pos(), Note: "arity"}
-	}
-	isNil := func(e ast.Expr) bool {
-		id, ok := ast.Unparen(e).(*ast.Ident)
-		return ok && id.Name == "nil" && m.c.Info.Types[e].IsNil()
-	}
-	first, third := r.Results[0], r.Results[2]
-	switch {
-	case isNil(first) && !isNil(third):
-		// third must be non-nil: Errorf call or err var known non-nil
-		if c, ok := ast.Unparen(third).(*ast.CallExpr); ok {
-			if fn := typeutil.StaticCallee(m.c.Info, c); fn != nil && (fn.FullName() == "fmt.Errorf" || fn.FullName() == "errors.New") {
-				return Exit{Kind: "ERR", Env: env, Pos: r.Pos(), Note: m.errNote(c, env)}
-			}
-		}
-		if o := m.obj(third); o != nil && env.ErrNil[o] == F {
-			return Exit{Kind: "ERR", Env: env, Pos: r.Pos(), Note: "propagated"}
-		}
-		return Exit{Kind: "BADRET", Env: env, Pos: r.Pos(), Note: "error result not provably non-nil"}
-	case !isNil(first) && isNil(third):
-		if m.obj(first) == m.contV && m.obj(r.Results[1]) == m.idxV {
-			if !env.Created {
-				// container creation happened in an earlier iteration: checked by typestate rule
-			}
-			return Exit{Kind: "OK", Env: env, Pos: r.Pos()}
-		}
-		return Exit{Kind: "BADRET", Env: env, Pos: r.Pos(), Note: "success return is not (container, i, nil)"}
-	}
-	return Exit{Kind: "BADRET", Env: env, Pos: r.Pos(), Note: "mixed nil/non-nil pair"}
-}
-
-func (m *Machine) errNote(c *ast.CallExpr, env *Env) string {
-	note := ""
-	if tv := m.c.Info.Types[c.Args[0]]; tv.Value != nil {
-		note = constant.StringVal(tv.Value)
-	}
-	return note
-}
-
-func (m *Machine) execCall(c *ast.CallExpr, env *Env) bool {
-	sel, ok := c.Fun.(*ast.SelectorExpr)
-	if !ok {
-		return false
-	}
-	recv := m.obj(sel.X)
-	if b, ok := m.builders[recv]; ok {
-		switch sel.Sel.Name {
-		case "Reset":
-			env.Acts = append(env.Acts, Action{Op: "RESET", Buf: b, Pos: c.Pos()})
-			env.BufLen[b] = F
-			return true
-		case "WriteRune":
-			what := ""
-			if m.obj(c.Args[0]) == m.charV {
-				what = "char"
-			} else if r, ok := m.runeConst(c.Args[0]); ok {
-				what = string(r)
-			} else {
-				return false
-			}
-			env.Acts = append(env.Acts, Action{Op: "W", Buf: b, What: what, Pos: c.Pos()})
-			env.BufLen[b] = T
-			return true
-		case "WriteString":
-			if v := env.Binds[m.obj(c.Args[0])]; v != nil {
-				env.Acts = append(env.Acts, Action{Op: "W", Buf: b, What: "val", Val: v, Pos: c.Pos()})
-				env.BufLen[b] = U
-				return true
-			}
-		}
-		return false
-	}
-	if recv == m.contV {
-		switch sel.Sel.Name {
-		case "Add":
-			if len(c.Args) == 1 && !c.Ellipsis.IsValid() {
-				if v := env.Binds[m.obj(c.Args[0])]; v != nil {
-					env.Acts = append(env.Acts, Action{Op: "EVENT", What: "Add", Val: v, Pos: c.Pos()})
-					return true
-				}
-			}
-		case "Set":
-			if len(c.Args) == 2 {
-				kb := m.builderString(c.Args[0])
-				if v := env.Binds[m.obj(c.Args[1])]; v != nil && kb != "" {
-					env.Acts = append(env.Acts, Action{Op: "EVENT", What: "Set", Buf: kb, Val: v, Pos: c.Pos()})
-					return true
-				}
-			}
-		}
-	}
-	return false
-}
-
-// builderString: e is `b.String()` for a known builder -> its role name
-func (m *Machine) builderString(e ast.Expr) string {
-	if c, ok := ast.Unparen(e).(*ast.CallExpr); ok {
-		if sel, ok := c.Fun.(*ast.SelectorExpr); ok && sel.Sel.Name == "String" && len(c.Args) == 0 {
-			return m.builders[m.obj(sel.X)]
-		}
-	}
-	return ""
-}
-
-func (m *Machine) execAssign(a *ast.AssignStmt, env *Env) bool {
-	info := m.c.Info
-	// i += pos
-	if a.Tok == token.ADD_ASSIGN && m.obj(a.Lhs[0]) == m.idxV {
-		if v := env.Binds[m.obj(a.Rhs[0])]; v != nil && v.Kind == "POS" {
-			env.Acts = append(env.Acts, Action{Op: "IADD", Val: v, Pos: a.Pos()})
-			return true
-		}
-		return false
-	}
-	if len(a.Lhs) == 1 && len(a.Rhs) == 1 {
-		lo := m.obj(a.Lhs[0])
-		switch lo {
-		case m.stateV:
-			if o := m.obj(a.Rhs[0]); o != nil {
-				if _, isC := o.(*types.Const); isC {
-					env.State = o.Name()
-					env.Acts = append(env.Acts, Action{Op: "STATE", What: o.Name(), Pos: a.Pos()})
-					return true
-				}
-			}
-			return false
-		case m.inValV:
-			if tv := info.Types[a.Rhs[0]]; tv.Value != nil {
-				if constant.BoolVal(tv.Value) {
-					env.InVal = T
-				} else {
-					env.InVal = F
-				}
-				return true
-			}
-			return false
-		case m.contV:
-			if c, ok := a.Rhs[0].(*ast.CallExpr); ok {
-				if fn := typeutil.StaticCallee(info, c); fn != nil && (fn.Name() == "NewList" || fn.Name() == "NewObject") && len(c.Args) == 0 {
-					env.Created = true
-					env.Acts = append(env.Acts, Action{Op: "CREATE", What: fn.Name(), Pos: a.Pos()})
-					return true
-				}
-			}
-			return false
-		}
-	}
-	// multi-value definitions from calls
-	if len(a.Rhs) == 1 {
-		if c, ok := a.Rhs[0].(*ast.CallExpr); ok {
-			fn := typeutil.StaticCallee(info, c)
-			if fn == nil {
-				return false
-			}
-			switch fn.FullName() {
-			case "unicode/utf8.DecodeRuneInString":
-				return true // decode: class abstraction stands for the result
-			}
-			switch fn.Name() {
-			case "parseObject", "parseList":
-				if len(a.Lhs) != 3 || !m.isJSONSuffix(c.Args[0]) || m.obj(c.Args[1]) != m.lineV {
-					return false
-				}
-				kind := "NESTED_OBJ"
-				if fn.Name() == "parseList" {
-					kind = "NESTED_LIST"
-				}
-				v := &AVal{Kind: kind, Site: c.Pos()}
-				env.Binds[m.obj(a.Lhs[0])] = v
-				env.Binds[m.obj(a.Lhs[1])] = &AVal{Kind: "POS", Site: c.Pos()}
-				if eo := m.obj(a.Lhs[2]); eo != nil {
-					env.ErrNil[eo] = U
-				}
-				env.Acts = append(env.Acts, Action{Op: "NESTED", What: fn.Name(), Val: v, Pos: c.Pos()})
-				return true
-			case "parseField":
-				b := m.builderString(c.Args[0])
-				if b == "" || len(a.Lhs) != 2 {
-					return false
-				}
-				m.noteLineArg(c)
-				env.Binds[m.obj(a.Lhs[0])] = &AVal{Kind: "FIELD", Buf: b, Dec: "parseField", Site: c.Pos()}
-				if eo := m.obj(a.Lhs[1]); eo != nil {
-					env.ErrNil[eo] = U
-				}
-				env.Acts = append(env.Acts, Action{Op: "USE", Buf: b, What: "parseField", Pos: c.Pos()})
-				return true
-			}
-			// string decode through a repo-local helper: H(b.String(), ...) (string, error)
-			if fn.Pkg() == m.c.Types && len(c.Args) >= 1 && len(a.Lhs) == 2 {
-				if b := m.builderString(c.Args[0]); b != "" {
-					m.noteLineArg(c)
-					env.Binds[m.obj(a.Lhs[0])] = &AVal{Kind: "STR", Buf: b, Dec: fn.FullName(), Site: c.Pos()}
-					if id, ok := a.Lhs[1].(*ast.Ident); ok && id.Name == "_" {
-						env.Acts = append(env.Acts, Action{Op: "DROPERR", What: fn.FullName(), Pos: c.Pos()})
-					}
-					if eo := m.obj(a.Lhs[1]); eo != nil {
-						env.ErrNil[eo] = U
-					}
-					env.Acts = append(env.Acts, Action{Op: "USE", Buf: b, What: fn.FullName(), Pos: c.Pos()})
-					return true
-				}
-			}
-			// string decode: DEC(fmt.Sprintf(`"%s"`, b.String()))
-			if len(c.Args) == 1 {
-				if inner, ok := c.Args[0].(*ast.CallExpr); ok {
-					if f2 := typeutil.StaticCallee(info, inner); f2 != nil && f2.FullName() == "fmt.Sprintf" && len(inner.Args) == 2 {
-						if tv := info.Types[inner.Args[0]]; tv.Value != nil && constant.StringVal(tv.Value) == `"%s"` {
-							if b := m.builderString(inner.Args[1]); b != "" {
-								env.Binds[m.obj(a.Lhs[0])] = &AVal{Kind: "STR", Buf: b, Dec: fn.FullName(), Site: c.Pos()}
-								if len(a.Lhs) == 2 {
-									if id, ok := a.Lhs[1].(*ast.Ident); ok && id.Name == "_" {
-										env.Acts = append(env.Acts, Action{Op: "DROPERR", What: fn.FullName(), Pos: c.Pos()})
-									} else if eo := m.obj(a.Lhs[1]); eo != nil {
-										env.ErrNil[eo] = U
-									}
-								}
-								env.Acts = append(env.Acts, Action{Op: "USE", Buf: b, What: fn.FullName(), Pos: c.Pos()})
-								return true
-							}
-						}
-					}
-				}
-			}
-		}
-	}
-	return false
-}
-
-func (m *Machine) isJSONSuffix(e ast.Expr) bool {
-	s, ok := ast.Unparen(e).(*ast.SliceExpr)
-	return ok && m.obj(s.X) == m.jsonV && m.obj(s.Low) == m.idxV && s.High == nil
-}
-
-// Step runs one loop iteration abstractly.
-func (m *Machine) Step(state string, inVal Tri, bufLen map[string]Tri, class *Class) []Exit {
-	env := &Env{State: state, InVal: inVal, BufLen: map[string]Tri{}, Class: class, Binds: map[types.Object]*AVal{}, ErrNil: map[types.Object]Tri{}}
-	for k, v := range bufLen {
-		env.BufLen[k] = v
-	}
-	return m.execList(m.loop.Body.List, env, func(e *Env) []Exit {
-		return []Exit{{Kind: "FALL", Env: e}}
-	})
-}
-
-// noteLineArg records whether a consumer call that takes a line number receives `*line`.
-func (m *Machine) noteLineArg(c *ast.CallExpr) {
-	ok := true
-	for _, a := range c.Args[1:] {
-		if t := m.c.typeOf(a); t != nil && types.Identical(t, types.Typ[types.Int]) {
-			st, isStar := ast.Unparen(a).(*ast.StarExpr)
-			ok = isStar && m.obj(st.X) == m.lineV
-		}
-	}
-	m.lineArgOK[c.Pos()] = ok
-}
